@@ -93,6 +93,8 @@ func Main(id string, specs []Spec, assumptions []string, rule string) {
 	var states int
 	var steps, execs, probes int64
 	hist := 0
+	families := map[string]*famAgg{}
+	var famOrder []string
 	for k, out := range results {
 		sc := specs[jobs[k].idx].Sc
 		if out.Error != "" {
@@ -104,24 +106,64 @@ func Main(id string, specs []Spec, assumptions []string, rule string) {
 		execs += res.Executions
 		probes += res.Probes
 		hist += res.Histories
-		sec := map[string]any{"scenario": res.Scenario, "executions": res.Executions, "states": res.States, "transitions": res.Steps,
-			"distinct_histories": res.Histories, "distinct_outcomes": res.Outcomes, "state_probes": res.Probes, "per_bound": res.PerBound}
-		if res.MaxBound == Unbounded {
-			sec["max_bound_completed"] = "unbounded"
-		} else {
-			sec["max_bound_completed"] = res.MaxBound
-		}
 		if res.CapHit != "" {
-			sec["cap_hit"] = res.CapHit
 			r.Incomplete(res.Scenario + ": " + res.CapHit)
 		}
-		r.Section(sec)
+		mb := any(res.MaxBound)
+		if res.MaxBound == Unbounded {
+			mb = "unbounded"
+		}
+		if len(jobs) <= 120 {
+			sec := map[string]any{"scenario": res.Scenario, "executions": res.Executions, "states": res.States, "transitions": res.Steps,
+				"distinct_histories": res.Histories, "distinct_outcomes": res.Outcomes, "state_probes": res.Probes, "per_bound": res.PerBound, "max_bound_completed": mb}
+			if res.CapHit != "" {
+				sec["cap_hit"] = res.CapHit
+			}
+			r.Section(sec)
+		} else {
+			// many scenarios: one evidence section per scenario family
+			fam := scenarioClass(res.Scenario)
+			f := families[fam]
+			if f == nil {
+				f = &famAgg{minBound: Unbounded}
+				families[fam] = f
+				famOrder = append(famOrder, fam)
+			}
+			f.n++
+			f.execs += res.Executions
+			f.states += res.States
+			f.steps += res.Steps
+			f.hist += res.Histories
+			f.probes += res.Probes
+			if res.MaxBound < f.minBound {
+				f.minBound = res.MaxBound
+			}
+			if res.CapHit != "" {
+				f.capped = append(f.capped, res.Scenario+": "+res.CapHit)
+			}
+			if res.Histories <= 1 && len(sc.Name) > 0 {
+				f.single++
+			}
+		}
 		if res.SampleHist != "" && k%5 == 0 {
 			r.SampleL(res.Scenario, res.SampleHist)
 		}
 		if v := res.Violation; v != nil {
 			r.Violation(v.Sig+"|"+scenarioClass(v.Scenario), v.What+fmt.Sprintf("\n  scenario %s, %d preemption(s), schedule %v, history:\n%s", v.Scenario, v.Preempt, v.Schedule, FormatHistory(v.History)), v, "")
 		}
+	}
+	for _, fam := range famOrder {
+		f := families[fam]
+		mb := any(f.minBound)
+		if f.minBound == Unbounded {
+			mb = "unbounded"
+		}
+		sec := map[string]any{"scenario_family": fam, "scenarios": f.n, "executions": f.execs, "states": f.states, "transitions": f.steps,
+			"distinct_histories": f.hist, "state_probes": f.probes, "smallest_max_bound_completed": mb, "scenarios_with_a_single_history": f.single}
+		if len(f.capped) > 0 {
+			sec["cap_hit"] = f.capped
+		}
+		r.Section(sec)
 	}
 	r.Eval(execs)
 	r.Nontrivial(int64(hist))
@@ -140,6 +182,13 @@ func Main(id string, specs []Spec, assumptions []string, rule string) {
 	}
 	r.Assume(assumptions...)
 	r.Finish(rule)
+}
+
+type famAgg struct {
+	n, states, hist, single int
+	execs, steps, probes    int64
+	minBound                int
+	capped                  []string
 }
 
 // scenarioClass is the part of a scenario name before the first '/' (the scenario family); it
